@@ -113,7 +113,12 @@ func worker(args []string) int {
 			incomplete := 0
 			expect := -1
 			for i := 0; i < rounds && incomplete < 3; i++ {
-				if _, ok := sp.FreeRun(expect); !ok {
+				d, ok := sp.FreeRun(expect)
+				if d == "HUNG" {
+					fmt.Printf("\n@@FREERUN-HUNG %s\n", sp.Name)
+					return reg.WorkerExit(r)
+				}
+				if !ok {
 					incomplete++
 				}
 			}
@@ -169,6 +174,10 @@ func racePass(r *ev.Run) {
 		r.Violate("C16/free-running-crash/"+fr[1], "concurrent datagrams crashed the free-running server code: "+what, map[string]interface{}{"output_tail": tail(out)})
 	} else {
 		panic("race worker died (checker error): " + tail(out))
+	}
+	if i := strings.Index(out, "@@FREERUN-HUNG "); i >= 0 {
+		name := strings.TrimSpace(strings.SplitN(out[i+len("@@FREERUN-HUNG "):], "\n", 2)[0])
+		r.Violate("C16/free-running-hang/"+name, "free-running goroutines of scenario "+name+" did not finish within 30 s: the Serve loop, a handler or the lease-file reload is blocked forever (deadlock)", map[string]interface{}{"scenario": name})
 	}
 	blocks := raceBlock.FindAllString(out, -1)
 	r.Set("race_reports", int64(len(blocks)))
